@@ -750,7 +750,7 @@ def oracle_2d(ctx, budget):
                 ctx.fail('pad_edges2d:extrapolate_window=1:edge-not-repeated',
                          'pad_edges2d(mode="extrapolate") with an extrapolate window of 1 does not repeat the edge value as pad_edges does: '
                          'the pseudo-inverse of the single-row Vandermonde gives the minimum-norm line y0*(1+x0*t)/(1+x0^2), which depends on the '
-                         'pad length; e.g. np.ones((3,4)), pad_length=2, extrapolate_window=1 is padded with 0.04..2.04 instead of 1 '
+                         'pad length (defect repaired by 8286df4; before it np.ones((3,4)), pad_length=2, extrapolate_window=1 was padded with 0.04..2.04) '
                          f'(found: shape {(r, c)}, pad_length={[a, b]}, extrapolate_window={ew}, cell {(i, j)} = {out[i, j]!r}, expected {float(ref[i][j])!r})', case)
             else:
                 ctx.fail('pad_edges2d:extrapolate:value',
